@@ -8,11 +8,16 @@
    The members' own steps are taken eagerly, in a canonical order, between two environment moves: every periodic message
    is delivered at once (the executor cannot see them; eventually they are), Connected / Pass / Fail / ShutMsg / Down as
    soon as they are enabled; TooFar only when it is certain (no other peer lags, see DKGSync!TooFar).
-   Discipline that keeps real runs away from races the model cannot see:
+   Discipline that keeps real runs away from races the model cannot see (eager delivery is only a prediction: the real
+   members poll every 1 ms / 10 ms / 100 ms / 250 ms):
      * the faulty member closes a stream (FClose, shutdown flag) towards i, and an honest member crashes, only when no
        running member is still inside startSyncProtocol (the 250 ms connection loop samples `connected` late);
      * an honest member crashes only when every running member has passed the barrier of its current step (its last
-       step report has then certainly been delivered).
+       step report has then certainly been delivered) and nobody is inside shutdownFunc;
+     * a member inside shutdownFunc passes its last barrier without a visible return: the faulty member only sends it
+       valid messages with a step inside the barrier;
+     * before FaultAfter recorded moves the faulty member behaves (valid messages, steps that keep the barriers
+       passable), so that faults also hit ceremonies that are under way.
    Run with -simulate. *)
 EXTENDS DKGSync, Json, Sequences, Randomization
 CONSTANTS GenLen, GenCfgs, Crashes, FaultAfter, StopFrom
